@@ -113,8 +113,12 @@ func c03Alphabet(tier string) []sym {
 			out = append(out, sym{T: "stat", Path: p, Kind: k})
 		}
 	}
+	// names of the shape the receiver itself uses for temporary entries
+	for _, p := range []string{".tmp.1", ".tmp.0"} {
+		out = append(out, sym{T: "stat", Path: p, Kind: "symx"}, sym{T: "stat", Path: p, Kind: "symabs"})
+	}
 	if tier == "thorough" {
-		out = append(out, sym{T: "stat", Path: "a", Kind: "fifo"}, sym{T: "stat", Path: "b", Kind: "suid"})
+		out = append(out, sym{T: "stat", Path: "a", Kind: "fifo"}, sym{T: "stat", Path: "b", Kind: "suid"}, sym{T: "stat", Path: ".tmp.2", Kind: "symx"})
 	}
 	for _, id := range []uint32{0, 1, 7} {
 		out = append(out, sym{T: "data", ID: id}, sym{T: "data", ID: id, Empty: true})
@@ -362,13 +366,13 @@ func judgeC03(root string, c c03Case) (string, string) {
 		case <-h.eof:
 			select {
 			case rerr = <-done:
-			case <-time.After(150 * time.Millisecond):
+			case <-time.After(60 * time.Millisecond):
 				giveUp()
 			}
 		case <-h.idle:
 			select {
 			case rerr = <-done:
-			case <-time.After(150 * time.Millisecond):
+			case <-time.After(60 * time.Millisecond):
 				giveUp()
 			}
 		}
@@ -528,6 +532,9 @@ func childC03(args []string) int {
 				if i%n != shard || i < start {
 					continue
 				}
+				if redundantAfterFin(sc) {
+					continue
+				}
 				c := c03Case{Script: sc, Prior: pr, Answer: ans, Coop: coop}
 				if b, err := json.Marshal(map[string]any{"i": i, "case": c, "evals": out.Evals, "cancelled": cancelled.Load()}); err == nil {
 					cur.Truncate(0)
@@ -552,6 +559,20 @@ func childC03(args []string) int {
 	}
 	json.NewEncoder(os.Stdout).Encode(c03Out{Evals: out.Evals, Cancelled: cancelled.Load()})
 	return 0
+}
+
+// redundantAfterFin: packets after a FIN that is not preceded by the end marker are read and
+// dropped by the receiver, so such a script behaves like its prefix up to the FIN.
+func redundantAfterFin(sc []sym) bool {
+	for i, s := range sc {
+		if s.T == "end" {
+			return false
+		}
+		if s.T == "fin" {
+			return i < len(sc)-1
+		}
+	}
+	return false
 }
 
 func chrootInto(root string) error {
